@@ -21,3 +21,9 @@ func (a *Agent) VerifRouteManager() *routing.Manager { return a.routeMgr }
 func (a *Agent) VerifHandleRouteAdvertise(peerID identity.AgentID, frame *protocol.Frame) {
 	a.handleRouteAdvertise(peerID, frame)
 }
+
+// VerifHandleRouteWithdraw runs the agent's own ROUTE_WITHDRAW handler on a
+// frame received from peerID.
+func (a *Agent) VerifHandleRouteWithdraw(peerID identity.AgentID, frame *protocol.Frame) {
+	a.handleRouteWithdraw(peerID, frame)
+}
